@@ -73,6 +73,72 @@ func lazyForms() []lazyForm {
 	}
 }
 
+// mutatingHostCases: a host function that appends to the list it is given.
+// Every evaluation builds its literals anew, so the result never depends on
+// how often the compiled code ran before (run on three environments in turn).
+func mutatingHostCases() []*ProgCase {
+	user := append(ref.UserFuns(), ref.Push())
+	env := bridge.NewEnv()
+	env.Put("n", ref.VNum(1))
+	env.Put("k", ref.VNum(2))
+	n := func(i int) *ref.E { return ref.Num(fmt.Sprint(i), float64(i)) }
+	progs := []*ref.E{
+		ref.Call("len", ref.Call("push", ref.List(n(1), n(2)), n(3))),
+		ref.Call("push", ref.List(n(1)), ref.Ident("n")),
+		ref.Subscript(ref.Call("push", ref.List(ref.Ident("n")), ref.Ident("k")), n(1)),
+		ref.Call("len", ref.Call("push", ref.Call("push", ref.List(n(1), n(2)), n(3)), n(4))),
+		ref.Call("lzIf", ref.Bool(true), ref.Call("len", ref.Call("push", ref.List(n(7)), n(8))), n(0)),
+		ref.Call("len", ref.Call("push", ref.Call("union", ref.List(n(1), n(2)), ref.List(n(3))), n(4))),
+		ref.Call("push", ref.Subscript(ref.List(ref.List(n(1), n(2))), n(0)), n(9)),
+		ref.Call("len", ref.Call("push", ref.Member(ref.Obj([]string{"f"}, []*ref.E{ref.List(ref.Str("a"))}), "f"), ref.Str("b"))),
+	}
+	var out []*ProgCase
+	for i, e := range progs {
+		out = append(out, &ProgCase{ID: fmt.Sprintf("mutating-host/%d", i), Src: ref.Render(e), E: e, Env: env, User: user})
+	}
+	return out
+}
+
+// wideThunkCases: a deferred operand that needs more than the initial 42
+// stack slots, followed by deferred operands that call lazy host functions in
+// non-first operand positions.
+func wideThunkCases() []*ProgCase {
+	user := ref.UserFuns()
+	env := bridge.NewEnv()
+	env.Put("b", ref.VBool(true))
+	env.Put("n", ref.VNum(1))
+	var out []*ProgCase
+	n := func(i int) *ref.E { return ref.Num(fmt.Sprint(i), float64(i)) }
+	for _, w := range []int{3, 41, 42, 43, 44, 50, 542, 543, 600} {
+		wide := func() *ref.E { return ref.Call("len", wideList(w, numLit)) }
+		wideSum := func() *ref.E {
+			return ref.Call("max", wideList(w, func(i int) *ref.E { return ref.CallF(ref.FInfix, "+", numLit(i), ref.Ident("n")) }))
+		}
+		later := []func() *ref.E{
+			func() *ref.E { return ref.Call("fst", tr("x", n(1)), ref.Call("lzIf", ref.Ident("b"), n(2), n(3))) },
+			func() *ref.E {
+				return ref.CallF(ref.FInfix, "+", tr("y", n(1)), ref.Call("pick3", ref.Ident("n"), n(4), n(5), n(6)))
+			},
+			func() *ref.E { return ref.List(tr("z", n(1)), ref.Call("lzIf", ref.Ident("b"), n(7), n(8)), n(9)) },
+			func() *ref.E {
+				return ref.Call("lzIf", ref.Ident("b"), ref.Call("fst", tr("u", n(1)), ref.Call("lzIf", ref.Ident("b"), n(2), n(3))), n(0))
+			},
+		}
+		for li, l := range later {
+			progs := []*ref.E{
+				ref.Call("pick3", ref.Ident("n"), wide(), ref.Call("len", ref.List(l())), n(0)),
+				ref.CallF(ref.FInfix, "+", ref.Call("lzIf", ref.Ident("b"), wide(), n(0)), ref.Call("lzIf", ref.Ident("b"), ref.Call("len", ref.List(l())), n(0))),
+				ref.Call("rev2", ref.Call("len", ref.List(l())), wideSum()),
+				ref.Call("lzIf", ref.CallF(ref.FInfix, ">", wide(), n(0)), ref.Call("len", ref.List(l())), wideSum()),
+			}
+			for pi, e := range progs {
+				out = append(out, &ProgCase{ID: fmt.Sprintf("wide-thunk/%d/%d/%d", w, li, pi), Src: ref.Render(e), E: e, Env: env, User: user})
+			}
+		}
+	}
+	return out
+}
+
 // lazyCases enumerates laziness / evaluation-order programs: every lazy form
 // with every selection, nested two and three deep (thunk bodies that call
 // lazy functions), strict operand positions, and the guarded-access idiom.
